@@ -769,13 +769,135 @@ def branch_inner_code(asm, bp, static):
     return asm.assemble(items)
 
 
+def _case_json(c):
+    return {"sel": hex(c.sel), "slots": json.loads(json.dumps(c.slots)), "n": c.n, "tag": c.tag, "sig": c.sig}
+
+
+def _case_unjson(c):
+    def tup(x):
+        return tuple(tup(y) for y in x) if isinstance(x, list) else x
+    return Case(int(c["sel"], 16), [tup(x) for x in c["slots"]], c.get("n"), c.get("tag", ""), c.get("sig"))
+
+
+@dataclass
+class SeqProg:
+    """a straight-line sequence on ONE path: an equality x == c is learned (vm.assume(x == c), or a JUMPI whose other side
+    returns), then a cheatcode compares x with a second symbolic word.  steps: Case | ("require_eq", var, c).
+    `saved`: variables copied to SCRATCH before the first step (slot kind "m": x read before the equality is learned)."""
+    steps: list
+    saved: list
+    nargs: int
+    tag: str = ""
+    kind = "seq"
+
+    def script_for(self, args):
+        out = []
+        for st in self.steps:
+            if isinstance(st, tuple):
+                if args[st[1]] % W != st[2] % W:
+                    break                      # the program returns here: nothing further is executed
+                continue
+            out.append(concretized(st, args))
+        return out
+
+    def all_cases(self):
+        return [st for st in self.steps if isinstance(st, Case)]
+
+    def to_json(self):
+        return {"kind": "seq", "steps": [list(st) if isinstance(st, tuple) else _case_json(st) for st in self.steps], "saved": self.saved,
+                "nargs": self.nargs, "tag": self.tag}
+
+    @staticmethod
+    def from_json(d):
+        return SeqProg([tuple(st) if isinstance(st, list) else _case_unjson(st) for st in d["steps"]], d["saved"], d["nargs"], d.get("tag", ""))
+
+    def code(self, asm, static):
+        items = []
+        if not static:
+            items += [("push", 0x77), ("push", 1), "SSTORE"]
+        items += [("push", MARKER, 32), ("push", RET_OFF), "MSTORE"]
+        for i in self.saved:
+            items += asm.calldata_arg(i) + [("push", SCRATCH + 32 * i), "MSTORE"]
+        le = asm.fresh("end")
+        last = max(j for j, st in enumerate(self.steps) if isinstance(st, Case))
+        for j, st in enumerate(self.steps):
+            if isinstance(st, tuple):
+                lc = asm.fresh("cont")
+                items += asm.calldata_arg(st[1]) + [("push", st[2] % W), "EQ", ("ref", lc), "JUMPI", ("push", 1), ("ref", le), "JUMP", ("label", lc)]
+            else:
+                items += build_call(asm, st) + (["POP"] if j != last else [])
+        if last != len(self.steps) - 1:
+            items += [("push", 1)]
+        items += [("label", le)]
+        items += [("push", OUT), "MSTORE", "RETURNDATASIZE", ("push", OUT + 0x20), "MSTORE", ("push", RET_OFF), "MLOAD", ("push", OUT + 0x40), "MSTORE"]
+        items += ([("push", 0)] if static else [("push", 1), "SLOAD"]) + [("push", OUT + 0x60), "MSTORE"]
+        items += [("push", MEM), "MLOAD", ("push", OUT + 0x80), "MSTORE", ("push", 0xA0), ("push", OUT), "RETURN"]
+        return asm.assemble(items)
+
+
+def seq_programs(ctx, G, entries):
+    """x = a0 pinned to a constant on the path (assume / JUMPI), then assert*(x, y) or (y, x) with y = a1 symbolic"""
+    rng = G.rng
+    by_sig = {e["sig"]: e["sel"] for e in entries}
+    X, Y = 0, 1
+    sigs = ["assertEq(uint256,uint256)", "assertNotEq(uint256,uint256)", "assertLt(uint256,uint256)", "assertGt(uint256,uint256)",
+            "assertLe(int256,int256)", "assertGe(int256,int256)", "assertEq(bytes32,bytes32)", "assertNotEq(address,address)",
+            "assertEq(int256,int256,string)"]
+    consts = [5, 0, 1, W - 1, 1 << 255, 42]
+    progs, k = [], 0
+    for load in ("m", "v"):                      # x read before the equality is learned (kept in memory) / re-read after it
+        for learn in ("assume", "jumpi"):
+            chosen = sigs if ctx.tier != "quick" else sigs[:2] + rng.sample(sigs[2:], 2)
+            for sig in chosen:
+                for xy in (True, False):
+                    c = consts[k % len(consts)]
+                    k += 1
+                    first = (Case(ASSUME_SEL, [("eq", ("v", X), c)], tag="sq-assume", sig="assume(bool)") if learn == "assume"
+                             else ("require_eq", X, c))
+                    xs, ys = (load, X), ("v", Y)
+                    ops = [xs, ys] if xy else [ys, xs]
+                    slots = encode(by_sig[sig], ops, (2, [0x4142 << 240]) if sig.endswith(",string)") else None)
+                    steps = [first, Case(by_sig[sig], slots, tag="sq-assert", sig=sig)]
+                    if rng.random() < 0.25:
+                        steps.append(Case(by_sig["assertTrue(bool)"], [("eq", ys, c)], tag="sq-assertTrue", sig="assertTrue(bool)"))
+                    progs.append(SeqProg(steps, [X] if load == "m" else [], 2,
+                                         tag=f"{learn}-then|{sig}|{'x,y' if xy else 'y,x'}|x-{'before' if load == 'm' else 'after'}"))
+    return progs
+
+
+def seq_inputs(ctx, D, G, sp, scn, sr):
+    consts = sorted({st[2] % W for st in sp.steps if isinstance(st, tuple)} |
+                    {s[2] % W for c in sp.all_cases() for s in c.slots if isinstance(s, tuple) and s[0] in ("eq", "ne")})
+    out, seen = [], set()
+
+    def add(x, y, tag):
+        if (x, y) not in seen:
+            seen.add((x, y))
+            out.append(D.Inputs([x % W, y % W], 0xCAFE, 0xCAFE, 0, {}, 0))
+            ctx.count("l2-input:" + tag)
+
+    for c in consts:
+        for y in (c, c + 1, c - 1, 0, 1 << 255, W - 1, G.word()):
+            add(c, y, "seq-x-pinned")            # the path after the equality: y == c and y != c
+        for x in (c + 1, c - 1, G.word()):
+            for y in (c, x, G.word()):
+                add(x, y, "seq-x-other")
+    budget = time.time() + 0.5
+    for p in sr.paths:
+        if time.time() > budget:
+            break
+        for m in D.solve_inputs(p.conds, scn, n=1, timeout_ms=300):
+            add(m.args[0], m.args[1], "path-model")
+    return out
+
+
 def build_branch_scenario(D, asm, bp, chain):
     static = "STATICCALL" in chain
     contracts = {}
     addrs = [D.MAIN] + [0x2000 + k for k in range(len(chain))]
     for k, op in enumerate(chain):
         contracts[addrs[k]] = wrapper_code(asm, addrs[k + 1], op)
-    contracts[addrs[len(chain)]] = branch_inner_code(asm, bp, static)
+    contracts[addrs[len(chain)]] = bp.code(asm, static) if isinstance(bp, SeqProg) else branch_inner_code(asm, bp, static)
     return D.Scenario(contracts, nargs=bp.nargs, name="c13-branch", meta={"chain": chain})
 
 
@@ -1190,6 +1312,15 @@ def level2_programs(ctx, G, entries):
                 e = rng.choice(un_entries)
                 script.append(Case(e["sel"], [V(rng.randrange(3))], tag="seq-unary", sig=e["sig"]))
         progs.append((script, rng.choice(chains)))
+    # an equality learned on the path, then a comparison of the pinned word with a second symbolic word; depths 0-2
+    deep2 = [["CALL", "DELEGATECALL"], ["STATICCALL", "CALL"], ["DELEGATECALL", "CALL"]]
+    for sp in seq_programs(ctx, G, entries):
+        progs.append((sp, []))
+        r = rng.random()
+        if ctx.tier != "quick" or r < 0.6:
+            progs.append((sp, rng.choice([ch for ch in chains if ch]) if r < 0.35 or ctx.tier != "quick" else rng.choice(deep2)))
+        if ctx.tier != "quick":
+            progs.append((sp, rng.choice(deep2)))
     # sibling paths from one branch point
     for bp in branch_programs(ctx, G, entries):
         progs.append((bp, []))
@@ -1248,13 +1379,13 @@ def run_level2(ctx, R, D, asm, G, progs, by_sel):
     evm_jobs = []
     for script, chain, *fixed in progs:
         fixed_inputs = [D.Inputs((list(fixed[0]) + [0, 0, 0, 0])[: None], 0xCAFE, 0xCAFE, 0, {}, 0)] if fixed else None
-        if isinstance(script, BranchProg):
+        if isinstance(script, (BranchProg, SeqProg)):
             bp = script
             scn = build_branch_scenario(D, asm, bp, chain)
             sr = D.symbolic_run(scn)
             ctx.count(f"l2-depth:{len(chain)}")
-            ctx.count("l2-branch-programs")
-            inputs = branch_inputs(ctx, D, G, bp, scn, sr) if fixed_inputs is None else [D.Inputs(fixed_inputs[0].args[: bp.nargs], 0xCAFE, 0xCAFE, 0, {}, 0)]
+            ctx.count("l2-seq-programs" if isinstance(bp, SeqProg) else "l2-branch-programs")
+            inputs = (seq_inputs if isinstance(bp, SeqProg) else branch_inputs)(ctx, D, G, bp, scn, sr) if fixed_inputs is None else [D.Inputs(fixed_inputs[0].args[: bp.nargs], 0xCAFE, 0xCAFE, 0, {}, 0)]
             rec = {"scn": scn, "script": bp.all_cases(), "branch": bp, "chain": chain, "sr": sr, "inputs": inputs, "idx": [], "evm": [],
                    "scripts": []}
             for inp in inputs:
@@ -1300,7 +1431,7 @@ def check_level2(ctx, R, D, jobs, replies, concs, by_sel):
         bp = rec.get("branch")
         e0 = by_sel.get(script[0].sel)
         if bp is not None:
-            kl = "branch:" + bp.tag.split("|")[0] + (":nested" if chain else "")
+            kl = ("pinned:" if isinstance(bp, SeqProg) else "branch:") + bp.tag.split("|")[0] + (":nested" if chain else "")
             replay = {"level": 2, "branch": bp.to_json(), "chain": chain,
                       "contracts": {hex(a): c.hex() for a, c in scn.contracts.items()}, "nargs": scn.nargs}
         else:
@@ -1498,6 +1629,10 @@ def load_corpus(ctx):
     return out
 
 
+def prog_from_json(d):
+    return SeqProg.from_json(d) if d.get("kind") == "seq" else BranchProg.from_json(d)
+
+
 def corpus_programs(corpus):
     progs = []
     for data in corpus:
@@ -1505,7 +1640,7 @@ def corpus_programs(corpus):
             continue
         args = [int(v, 16) for v in data["inputs"]]
         if "branch" in data:
-            progs.append((BranchProg.from_json(data["branch"]), data["chain"], args))
+            progs.append((prog_from_json(data["branch"]), data["chain"], args))
         else:
             progs.append(([Case.from_json(c) for c in data["script"]], data["chain"], args))
     return progs
@@ -1527,7 +1662,7 @@ def replay_one(ctx, R, D, asm, data, by_sel):
         replies = ctx.lean("Assertions").ask([request(case, vals, orc[0] if orc else cc, orc[1] if len(orc) > 1 else cn)])
         check_level1(ctx, R, [rec], replies, by_sel)
     elif data.get("level") == 2 and "branch" in data:
-        bp = BranchProg.from_json(data["branch"])
+        bp = prog_from_json(data["branch"])
         scn = build_branch_scenario(D, asm, bp, data["chain"])
         sr = D.symbolic_run(scn)
         args = [int(v, 16) for v in data["inputs"]]
@@ -1590,7 +1725,7 @@ def correspond(ctx):
     ctx.extra["level2_programs"] = len(progs)
     ctx.extra["level2_wall_s"] = round(time.time() - t1, 1)
     sel_l1 = {r["case"].sel for r in recs}
-    sel_l2 = {c.sel for s, *_ in progs for c in (s.all_cases() if isinstance(s, BranchProg) else s)}
+    sel_l2 = {c.sel for s, *_ in progs for c in (s.all_cases() if isinstance(s, (BranchProg, SeqProg)) else s)}
     missing = [hex(e["sel"]) for e in entries if e["sel"] not in sel_l1 or e["sel"] not in sel_l2]
     if missing or ASSUME_SEL not in sel_l1 or ASSUME_SEL not in sel_l2:
         raise RuntimeError(f"selectors not exercised: {missing}")
